@@ -84,13 +84,13 @@ MUTANTS += [
  {"id": "c04-ovl-braket", "prop": "C04", "file": _IS,
   "old": "                i1 = (self.intermediate_state(order=term[0], space=block[0],\n                                              braket=\"bra\",",
   "new": "                i1 = (self.intermediate_state(order=term[0], space=block[0],\n                                              braket=\"ket\","},
- {"id": "c04-taylor-exponent", "prop": "C04", "file": _IS, "old": "f = (1 + x) ** -0.5", "new": "f = (1 + x) ** -1.0"},
+ {"id": "c04-taylor-exponent", "prop": "C04", "file": _IS, "old": "f = (1 + x) ** Rational(-1, 2)", "new": "f = (1 + x) ** Rational(-1, 1)"},
  {"id": "c04-taylor-factorial", "prop": "C04", "file": _IS,
   "old": "            pref = nsimplify(f.subs(x, 0) / factorial(exp), rational=True)\n            orders = gen_term_orders(\n                order=order, term_length=exp, min_order=min_order\n            )\n            ret.append((pref, orders))\n        return ret\n\n    def _generate_lower_spaces",
   "new": "            pref = nsimplify(f.subs(x, 0) / exp, rational=True)\n            orders = gen_term_orders(\n                order=order, term_length=exp, min_order=min_order\n            )\n            ret.append((pref, orders))\n        return ret\n\n    def _generate_lower_spaces"},
  {"id": "c04-precursor-lower-prefactor", "prop": "C04", "file": _IS,
   "old": "1, factorial(n_ov_lower[\"occ\"]) * factorial(n_ov_lower[\"virt\"])", "new": "1, factorial(n_ov[\"occ\"]) * factorial(n_ov[\"virt\"])"},
- {"id": "c04-normfactor-exponent", "prop": "C04", "file": "adcgen/groundstate.py", "old": "f = (1 + x) ** -1.0", "new": "f = (1 + x) ** -0.5"},
+ {"id": "c04-normfactor-exponent", "prop": "C02", "file": "adcgen/groundstate.py", "old": "f = (1 + x) ** -1.0", "new": "f = (1 + x) ** -0.5"},
 ]
 _SM = "adcgen/secular_matrix.py"
 MUTANTS += [
